@@ -733,6 +733,18 @@ func (e *Env) ptrTarget(v ssa.Value) *Term {
 
 func (e *Env) phi(x *ssa.Phi) *Term {
 	b := x.Block()
+	// loop-carried value: keep symbolic (paths visit a loop header once)
+	for i, p := range b.Preds {
+		if b.Dominates(p) {
+			t := &Term{Op: "loopphi", Name: x.Comment, ID: e.prefix + x.Name()}
+			for j, q := range b.Preds {
+				if j != i && !b.Dominates(q) {
+					t.Args = append(t.Args, e.Term(x.Edges[j]))
+				}
+			}
+			return t
+		}
+	}
 	bi, ok := e.Path.idx[b]
 	if ok && bi > 0 {
 		prev := e.Path.Blocks[bi-1]
@@ -973,3 +985,122 @@ func (t *Term) Narrowing() bool {
 	}
 	return false
 }
+
+// InstrDominates reports whether instruction a is executed before b on every path to b.
+func InstrDominates(a, b ssa.Instruction) bool {
+	ba, bb := a.Block(), b.Block()
+	if ba == bb {
+		for _, in := range ba.Instrs {
+			if in == a {
+				return true
+			}
+			if in == b {
+				return false
+			}
+		}
+		return false
+	}
+	return ba.Dominates(bb)
+}
+
+// Def follows v through loads of single-store locals and closure captures to
+// the value that was stored: FreeVar → MakeClosure binding → Alloc → its only
+// Store. It returns v itself when no unique definition exists.
+func (p *Prog) Def(v ssa.Value) ssa.Value {
+	for i := 0; i < 16; i++ {
+		switch x := v.(type) {
+		case *ssa.UnOp:
+			if x.Op != token.MUL {
+				return v
+			}
+			inner := p.Def(x.X)
+			if a, ok := inner.(*ssa.Alloc); ok {
+				if s := singleStore(a); s != nil {
+					v = s.Val
+					continue
+				}
+			}
+			return v
+		case *ssa.FreeVar:
+			b := p.Binding(x)
+			if b == nil {
+				return v
+			}
+			v = b
+		case *ssa.MakeInterface:
+			v = x.X
+		case *ssa.ChangeInterface:
+			v = x.X
+		default:
+			return v
+		}
+	}
+	return v
+}
+
+func singleStore(a *ssa.Alloc) *ssa.Store {
+	var st *ssa.Store
+	n := 0
+	var visit func(v ssa.Value)
+	seen := map[ssa.Value]bool{}
+	visit = func(v ssa.Value) {
+		if seen[v] || v.Referrers() == nil {
+			return
+		}
+		seen[v] = true
+		for _, r := range *v.Referrers() {
+			switch x := r.(type) {
+			case *ssa.Store:
+				if x.Addr == v {
+					st = x
+					n++
+				}
+			case *ssa.MakeClosure:
+				// captured by reference: look at stores through the free variable
+				fn := x.Fn.(*ssa.Function)
+				for i, b := range x.Bindings {
+					if b == v {
+						visit(fn.FreeVars[i])
+					}
+				}
+			}
+		}
+	}
+	visit(a)
+	if n == 1 {
+		return st
+	}
+	return nil
+}
+
+// Binding returns the value bound to a free variable at the (unique) MakeClosure of its function.
+func (p *Prog) Binding(fv *ssa.FreeVar) ssa.Value {
+	fn := fv.Parent()
+	par := fn.Parent()
+	if par == nil {
+		return nil
+	}
+	idx := -1
+	for i, f := range fn.FreeVars {
+		if f == fv {
+			idx = i
+		}
+	}
+	var out ssa.Value
+	n := 0
+	for _, b := range par.Blocks {
+		for _, in := range b.Instrs {
+			if mc, ok := in.(*ssa.MakeClosure); ok && mc.Fn == ssa.Value(fn) && idx >= 0 {
+				out = mc.Bindings[idx]
+				n++
+			}
+		}
+	}
+	if n == 1 {
+		return out
+	}
+	return nil
+}
+
+// ProjField projects a named field out of a term (struct literals are opened).
+func ProjField(t *Term, f string) *Term { return projField(t, f) }
